@@ -922,7 +922,8 @@ fn gen_value(rng: &mut Rng, kind: Kind) -> Vec<u8> {
 }
 
 fn gen_kind(rng: &mut Rng) -> Kind {
-    match rng.usize(16) {
+    match rng.usize(19) {
+        16 | 17 | 18 => Kind::F16,
         0 => Kind::I32,
         1 => Kind::U32,
         2 => Kind::I64,
@@ -968,6 +969,21 @@ fn gen_batches(rng: &mut Rng, kind: Kind, nullable: bool, same_len_dec: bool) ->
     let pool: Vec<Vec<u8>> = (0..1 + rng.usize(6))
         .map(|_| if same_len_dec && kind == Kind::DecBa { gen_decimal(rng, declen) } else { gen_value(rng, kind) })
         .collect();
+    // float columns: half of the cases are built around ±inf mixed with finite values
+    let inf_mode = matches!(kind, Kind::F16 | Kind::F32 | Kind::F64) && rng.chance(1, 2);
+    let (pinf, ninf): (Vec<u8>, Vec<u8>) = match kind {
+        Kind::F16 => (0x7C00u16.to_le_bytes().to_vec(), 0xFC00u16.to_le_bytes().to_vec()),
+        Kind::F32 => (f32::INFINITY.to_le_bytes().to_vec(), f32::NEG_INFINITY.to_le_bytes().to_vec()),
+        _ => (f64::INFINITY.to_le_bytes().to_vec(), f64::NEG_INFINITY.to_le_bytes().to_vec()),
+    };
+    let mut pool = pool;
+    if inf_mode {
+        pool.push(pinf.clone());
+        pool.push(ninf.clone());
+        if rng.bool() {
+            pool.push(pinf.clone());
+        }
+    }
     let sorted = rng.usize(4); // 0: random, 1: ascending, 2: descending, 3: random
     let mut all: Vec<Batch> = vec![];
     for _ in 0..nb {
@@ -987,6 +1003,26 @@ fn gen_batches(rng: &mut Rng, kind: Kind, nullable: bool, same_len_dec: bool) ->
             .collect();
         if nullable && rng.chance(1, 8) {
             b = b.into_iter().map(|_| None).collect();
+        }
+        if inf_mode && rng.chance(1, 3) {
+            // an inf-only batch (an inf-only page when the row limit is small)
+            let which = rng.usize(3);
+            b = b
+                .into_iter()
+                .map(|v| {
+                    v.map(|_| match which {
+                        0 => pinf.clone(),
+                        1 => ninf.clone(),
+                        _ => {
+                            if rng.bool() {
+                                pinf.clone()
+                            } else {
+                                ninf.clone()
+                            }
+                        }
+                    })
+                })
+                .collect();
         }
         all.push(b);
     }
@@ -1024,6 +1060,20 @@ fn value_tags(kind: Kind, cfg: &Cfg, batches: &[Batch]) -> String {
     }
     if vals.is_empty() {
         tags.push_str(" novalues");
+    }
+    if matches!(kind, Kind::F16 | Kind::F32 | Kind::F64) {
+        let is_inf = |v: &Vec<u8>| match kind {
+            Kind::F16 => half::f16::from_le_bytes(v[..].try_into().unwrap()).is_infinite(),
+            Kind::F32 => f32::from_le_bytes(v[..].try_into().unwrap()).is_infinite(),
+            _ => f64::from_le_bytes(v[..].try_into().unwrap()).is_infinite(),
+        };
+        let ninf = vals.iter().filter(|v| is_inf(v)).count();
+        if ninf > 0 && ninf < vals.len() {
+            tags.push_str(" inf-mixed");
+        }
+        if ninf > 0 && batches.iter().any(|b| b.iter().flatten().count() > 0 && b.iter().flatten().all(|v| is_inf(v))) {
+            tags.push_str(" inf-only-batch");
+        }
     }
     let byteish = matches!(kind, Kind::DecBa | Kind::Utf8 | Kind::Bin | Kind::Flba(_));
     if byteish {
